@@ -1,5 +1,53 @@
-import Rtcm.Model.Names
-import Rtcm.Model.Socket
+import Rtcm.Model.Message
 import Rtcm.Gen.Tables
+/-
+  C13 — a parse result depends only on the bytes parsed, not on history or threads.
+  The model of a parse is a *function* of (tables, bytes, option): there is no state a history
+  could touch.  The theorems below say exactly that about histories of operations; that the
+  *implementation* behaves like this function is what the correspondence run checks (same payloads
+  after different histories and from concurrent threads must all equal the model's single answer,
+  and the translator's output must be identical before and after the workload).
+  PARTIAL: thread interleavings of CPython are sampled by the harness, not proved.
+-/
 namespace Rtcm
+
+inductive Op
+  | msg (payload : Option Bytes) (label : Nat)
+  | parse (frame : Bytes) (validate : Nat) (label : Nat)
+
+/-- result of one operation; tables are constants -/
+def Op.result (T : Tables) : Op → Outcome Msg
+  | .msg p l => construct T p l
+  | .parse f v l => Rtcm.parse T f v l
+
+/-- a history is executed by threading the (constant) tables through the operations -/
+def runHistory (T : Tables) : List Op → Tables × List (Outcome Msg)
+  | [] => (T, [])
+  | o :: rest =>
+    let r := runHistory T rest
+    (r.1, o.result T :: r.2)
+
+/-- parsing never modifies the tables -/
+theorem C13_tables_unchanged (T : Tables) (h : List Op) : (runHistory T h).1 = T := by
+  induction h with
+  | nil => rfl
+  | cons o rest ih => simp [runHistory, ih]
+
+/-- every result in a history is the result of that operation alone -/
+theorem C13_history_independent (T : Tables) (h : List Op) :
+    (runHistory T h).2 = h.map (Op.result T) := by
+  induction h with
+  | nil => rfl
+  | cons o rest ih => simp [runHistory, ih]
+
+/-- the same operation gives the same result wherever it occurs in whatever histories -/
+theorem C13_same_bytes_same_result (T : Tables) (h₁ h₂ : List Op) (i j : Nat) (o : Op)
+    (hi : h₁[i]? = some o) (hj : h₂[j]? = some o) :
+    (runHistory T h₁).2[i]? = (runHistory T h₂).2[j]? := by
+  simp [C13_history_independent, hi, hj]
+
+/-- non-vacuity: a history with a failing and a succeeding parse -/
+example : ((runHistory Gen.tables [.msg (some []) 1, .msg (some [0xff, 0xf0, 1]) 1]).2.map Outcome.isOk) = [false, true] := by
+  decide +kernel
+
 end Rtcm
